@@ -15,11 +15,13 @@ from .lifecycle import same
 from .worlds import Checker
 
 NTRAIN = 8
-PX, PY = 4, 3
+PX, PY = 6, 5
+SALT = {}       # family -> salt of the data content (chosen so that a rotator's mode permutation is not an involution)
+_CUR = [0]
 
 
 def _content(label, member, p, cplx, which):
-    rng = np.random.default_rng(abs(hash((int(label), int(member), p, which))) % (2 ** 32))
+    rng = np.random.default_rng(abs(hash((int(label), int(member), p, which, _CUR[0]))) % (2 ** 32))
     v = rng.normal(size=p) * np.linspace(1, 2.5, p) + np.arange(p)
     if cplx:
         v = v + 1j * rng.normal(size=p)
@@ -55,7 +57,7 @@ def build(fam):
     if "Rotator" in base:
         power = int(base[-1])
         base = base[:-1]
-    k = 3
+    k = 4 if "Rotator" in fam else 3
     if base in ("EOF", "EOFstd", "EOFRotator"):
         cls = S.ComplexEOF if cplx else S.EOF
         mk = lambda: cls(n_modes=k, standardize=(base == "EOFstd"), solver="full")  # noqa: E731
@@ -84,16 +86,35 @@ def build(fam):
     if base == "CPCCARotator":
         cls = C.ComplexCPCCA if cplx else C.CPCCA
         rcls = C.ComplexCPCCARotator if cplx else C.CPCCARotator
-        return "cross", (lambda: cls(n_modes=k, alpha=0.5, use_pca=True, n_pca_modes=3, solver="full")), (lambda: rcls(n_modes=k, power=power, max_iter=5000, rtol=1e-12)), cplx
+        return "cross", (lambda: cls(n_modes=k, alpha=0.5, use_pca=True, n_pca_modes=4, solver="full")), (lambda: rcls(n_modes=k, power=power, max_iter=5000, rtol=1e-12)), cplx
     raise common.MachineryError(f"unknown family {fam}")
 
 
 _FITTED = {}
 
 
+def _not_involution(perm):
+    perm = list(map(int, perm))
+    return any(perm[perm[i]] != i for i in range(len(perm)))
+
+
 def fitted(fam, slayout):
     key = (fam, slayout)
-    if key not in _FITTED:
+    if key in _FITTED:
+        _CUR[0] = _FITTED[key][3]
+        return _FITTED[key][:3]
+    for salt in range(40):
+        _CUR[0] = salt
+        out = _fit_once(fam, slayout)
+        obj = out[1]
+        if "Rotator" not in fam or _not_involution(np.asarray(obj.data["idx_modes_sorted"].values)):
+            break
+    _FITTED[key] = (*out, _CUR[0])
+    return out
+
+
+def _fit_once(fam, slayout):
+    if True:
         kind, mk, rot, cplx = build(fam)
         train = list(range(1, NTRAIN + 1))
         X, Y = field(train, slayout, cplx, "X"), field(train, slayout, cplx, "Y")
@@ -109,8 +130,7 @@ def fitted(fam, slayout):
             obj = m
             if rot is not None:
                 obj = rot().fit(m)
-        _FITTED[key] = (kind, obj, cplx)
-    return _FITTED[key]
+        return (kind, obj, cplx)
 
 
 def call_transform(kind, obj, X, Y, nz):
@@ -150,6 +170,17 @@ def evaluate(i, scn):
         return dict(found=ck.found, D=ck.D)
     want = first_labels(X)
     sc = call_scores(kind, obj, nz)
+    if kind == "cross" and c["split"] == 0:
+        # the two fields are independent arguments: Y alone, after an X with other sample labels
+        try:
+            with warnings.catch_warnings():
+                warnings.simplefilter("ignore")
+                obj.transform(X=field(list(range(1, NTRAIN + 1)), sl, cplx, "X"))
+                ry = obj.transform(Y=Y, normalized=nz)
+            ok = "time" in ry.dims and sorted(map(str, first_labels(ry))) == sorted(map(str, want))
+            ck.d(ok, "C05", "C05_LabelsFromArgument", f"{fam}: transform(Y=...) after transform(X=training) is labelled {first_labels(ry)[:6] if 'time' in ry.dims else ry.dims}, the argument carries {want[:6]}")
+        except Exception as e:  # noqa
+            ck.d(False, "C05", "C05_LabelsFromArgument", f"{fam}: transform(Y=...) alone raised {type(e).__name__}: {str(e)[:120]}")
     tol = 1e-6
     for f, r in enumerate(res):
         # element order along a dimension may come back sorted (unstacking several sample dimensions does)
